@@ -351,7 +351,7 @@ def r03_5(ctx):
     for n in ast.walk(f.node):
         if isinstance(n, ast.Call):
             if isinstance(n.func, ast.Name) and n.func.id == f.name and len(n.args) == 2:
-                a1 = ast.unparse(n.args[1])
+                a1 = res.text(n.args[1])
                 for i in (1, 2):
                     if a1 == f"{ex}[{i}]":
                         rec[i] = n
